@@ -37,8 +37,17 @@ def run(ctx, R):
     dom = g.dominators()
     lock = g.call_blocks(lambda t: re.search(r"sync::.*Mutex::<.*>::lock$|Mutex<T>::lock$", callee_of(t)) is not None)
     epochs = g.call_blocks(lambda t: callee_of(t).endswith("RcuRef::<T, M>::same_epoch") or callee_of(t).endswith("::same_epoch"))
-    if len(lock) != 1 or len(epochs) != 2:
+    if len(lock) != 1 or len(epochs) < 1:
         raise AnchorLost("build_with: %d lock calls, %d same_epoch calls" % (len(lock), len(epochs)))
+    # both snapshots taken before the lock must be re-validated under it: the block (allocation) epoch
+    # and the atom-list epoch. Dropping either lets a thread continue on a retired block or list.
+    kinds = set()
+    for e in epochs:
+        inst = mir["blocks"][e]["t"].get("inst") or ""
+        kinds.add("allocation" if "InnerAtomTable" in inst else "atom-list" if "IndexSet" in inst else inst)
+    R.ob("C32:epoch-recheck:both-snapshots", len(epochs) == 2 and kinds == {"allocation", "atom-list"},
+         "under the update lock build_with re-validates %s; it must re-validate both the allocation (InnerAtomTable) epoch and the atom-list (IndexSet) epoch, "
+         "otherwise a thread that missed in the lookup while another thread grew the table keeps writing into the retired block" % sorted(kinds), F.where(bw))
     # the branch on the two epoch results: the block where the conjunction is decided. Mutators must
     # be dominated by the `false` edge of `!(a && b)`, i.e. not reachable when a racing writer was seen:
     # approximate structurally: dominated by both same_epoch calls AND not dominating-equivalent to the
